@@ -1,5 +1,5 @@
 SPECIFICATION Spec
-CONSTANTS NRules = 4  K = 2  MaxQ = 12
+CONSTANTS NRules = 3  K = 2  MaxQ = 12
   MutKeyNoPort = FALSE  MutKeyNoProto = FALSE  MutKeyNoV6 = FALSE  MutSuffixNoDot = FALSE  MutPortHi = FALSE
   RulePool <- Pool  QueryPool <- Queries
 INVARIANT PrintScn
